@@ -54,7 +54,8 @@ class Section(dict):
 
         if self.imports:
             for pkgname in self.imports:
-                result.append('%import ' + pkgname)
+                # "$" was "$$" in the source text
+                result.append('%import ' + pkgname.replace('$', '$$'))
             result.append('')
 
         if self.type:
@@ -68,6 +69,8 @@ class Section(dict):
         lst = sorted(self.items())
         for name, values in lst:
             for value in values:
+                # "$" was "$$" in the source text
+                value = value.replace('$', '$$')
                 result.append(f'{pre}{name} {value}')
 
         if self.sections and self:
